@@ -126,6 +126,11 @@ func VerifC12_SessionHistory() {
 	st := newVStore()
 	da := verifDA(st)
 	st.failAt = ndPick("fail-at", 4) - 1 // no failure, or the 1st..3rd store write fails
+	// optionally the history starts with some subscribers already served (so that short histories reach conflicts)
+	for i := 0; i < vParam("pre", 0); i++ {
+		_, err := da.Allocate(ctx, vC12Keys[i])
+		vAssume(err == nil)
+	}
 	k := vParam("K", 3)
 	conflicted := map[string]bool{}
 	for i := 0; i < k; i++ {
@@ -163,6 +168,7 @@ func VerifC12_SessionHistory() {
 			key := da.allocationKey(sub)
 			// the remote node's write lands in the shared store, then the watcher fires
 			holderBefore, taken := da.GetByPrefix(verifPrefix(idx))
+			heldBefore, hadBefore := da.Get(sub)
 			st.kv[key] = val
 			present := false
 			for _, o := range st.order {
@@ -174,6 +180,14 @@ func VerifC12_SessionHistory() {
 			da.handleRemoteChange(key, val, false)
 			got, has := da.Get(sub)
 			conflicted[sub] = taken && holderBefore != sub
+			if conflicted[sub] {
+				// the announced address is held by someone else here: the announcement cannot be applied, and what
+				// the subscriber held locally must stay exactly as it was (not half-removed)
+				after, hasAfter := da.Get(sub)
+				vAssert(hasAfter == hadBefore && (!hasAfter || after.String() == heldBefore.String()), "a remote announcement that could not be applied changed what the subscriber holds locally")
+				other, still := da.GetByPrefix(verifPrefix(idx))
+				vAssert(still && other == holderBefore, "a remote announcement that could not be applied disturbed the holder of the announced address")
+			}
 			if !conflicted[sub] {
 				vAssert(has && got.String() == rec.Prefix, "a change announced by another node was not applied with the address it announces")
 			}
